@@ -28,8 +28,10 @@ def run(tier):
     r = C.tlc("JlsLinks", "JlsLinks_mc.cfg", timeout=1200)
     if not ck.add_mc("JlsLinks per-write steps MaxChunks=6 (pointers valid after any prefix of writes)", r):
         ck.violation({"where": "model", "config": "JlsLinks_mc", "invariant": r.violated})
+    crashcheck.repair_model(ck, thorough)
     P = crashcheck.crash_programs(rng, 160 if thorough else 40, thorough, "c03", ck=ck)
     trace, v, nobs = crashcheck.run_crash(ck, P, "c03", {"C03", "C19", "C10"})
+    crashcheck.repair_conformance(ck, trace, "C03")
     ck.cov["distinct_nontrivial"] = sum(1 for l in open(trace) if l.startswith('{"e":"CrashObs"') and '"modified":true' in l)
     ck.cov["rule"] = "one case per crash image (k complete backend writes + j bytes of the next); non-trivial = the open repaired the image (modified it)"
     ck.cov["samples"] = [l.strip()[:260] for l in open(trace) if l.startswith('{"e":"CrashObs"') and '"modified":true' in l][:2]
